@@ -22,6 +22,7 @@ Line-protocol driver for the C01 model (kv manifest / crash recovery).
                                           f Flush, s Sync, c Close; per op `file/buffered` sizes; after s also the read-back
                                           of the FILE (what a kill leaves): r=<records>,<clean end>,<equal to the records written>
   cfrace <name> <point> <seq>             two concurrent creators of one new family (creators' model, lock region as regenerated)
+  mojob <inputs> <next> <k> <j> <c>       merge compaction with k outputs, c foreign cleanups after output j
   cfwitness <name>                        two creators, flusher of the unpublished object, cleanup of the published one
 
 log tokens: nf,l,f,min,max,size  df,l,f  next,n  nr,f,i  dr,f,i  nref,storehex,fam,f  dref,storehex,fam,f  seq,l,s
@@ -31,6 +32,7 @@ import LinVerif.Model.KvFs
 import LinVerif.Model.Entries
 import LinVerif.Model.C01Writer
 import LinVerif.Model.C01CreateFam
+import LinVerif.Model.C01MultiOut
 import LinVerif.Generated.C01
 
 namespace LinVerif.Driver.C01
@@ -427,6 +429,12 @@ def step (s : DSt) (ws : List String) : DSt × String :=
     match name.toNat? with
     | some nm => (s, C01CF.witnessObs cfCfg nm)
     | none => (s, "bad-op")
+  | ["mojob", inputsS, nextS, kS, jS, cS] =>
+    -- a merge compaction with k output tables, c foreign deleteObsoleteFiles runs after output j (Model/C01MultiOut)
+    match (inputsS.splitOn ",").mapM String.toInt?, nextS.toInt?, kS.toNat?, jS.toNat?, cS.toNat? with
+    | some inputs, some next, some k, some j, some c =>
+      if j > k ∨ k = 0 then (s, "bad-op") else (s, MO.caseObs MO.codeCfg inputs next k j c)
+    | _, _, _, _, _ => (s, "bad-op")
   | ["entries", b, lens] =>
     -- entry framing: write records of the given lengths (content generated from the index), read them
     -- back with a read buffer of b bytes; print count, clean-end flag and length:checksum per record
